@@ -176,5 +176,6 @@ def check(ctx):
     n0 = len(ctx.obs)
     c17.check_B4(ctx, facts)
     c17.check_B5(ctx, facts)
+    c17.check_B8(ctx, facts, rule='C07.R4')
     for o in ctx.obs[n0:]:
         o.rule = 'C07.R4'
